@@ -1,4 +1,5 @@
 import RedisEmu.Exec
+import RedisEmu.Proofs.GoArith
 import Mathlib.Tactic.SplitIfs
 /-
   C02 â€” string and counter commands.
@@ -128,5 +129,24 @@ theorem getrange_negative (n start stop : Int) (h1 : -n â‰¤ start) (h2 : start â
   split_ifs <;> first | rfl | omega | (simp only [Prod.mk.injEq]; omega)
 
 /-! ### SET / GET -/
+
+/-! ### the overflow test as the Go source has it now (`GoArith.lean`, regenerated from /repo on every run) -/
+
+theorem inRange64_toInt (v : BitVec 64) : inRange64 v.toInt = true := by
+  have h1 := BitVec.toInt_lt (x := v); have h2 := BitVec.le_toInt (x := v)
+  unfold inRange64 twoP63; simp at *; omega
+
+/-- The condition under which `addInt` (INCR / DECR / INCRBY / DECRBY) answers "overflow", translated from
+    the Go source by `tools/go2lean`: for all int64 values and increments it holds exactly when the true
+    sum leaves the int64 range. -/
+theorem addInt_guard_as_coded (v d : BitVec 64) :
+    Go.addIntOverflowGuard v d = true â†” inRange64 (v.toInt + d.toInt) = false := by
+  rw [go_addIntOverflowGuard]
+  exact addInt_overflow_iff v.toInt d.toInt (inRange64_toInt v) (inRange64_toInt d)
+
+/-- the guard is a real one: it fires on some inputs and not on others -/
+theorem addInt_guard_nontrivial :
+    Go.addIntOverflowGuard (BitVec.ofInt 64 9223372036854775807) 1#64 = true âˆ§
+    Go.addIntOverflowGuard 5#64 (BitVec.ofInt 64 (-7)) = false := by decide
 
 end RedisEmu
